@@ -55,6 +55,8 @@ type DB struct {
 	Funcs  map[string]*FuncSpec
 	Preds  map[string]*Pred
 	Order  []string
+	Closed []string // interface types resolved by case split over the implementing types of the module
+	UsedBy []string // package usedby P...: the only packages whose verification uses these contracts
 	Assume []string // raw text of every assume / trusted line (mechanical scan for the evidence)
 }
 
@@ -66,7 +68,7 @@ var clauseKW = map[string]bool{
 	"ghost": true, "callee_may_panic": true, "opaque_effects": true, "never_errors": true,
 	"before": true, "toplevel": true,
 }
-var topKW = map[string]bool{"func": true, "pred": true, "package": true, "axiom": true, "lemma": true, "functype": true, "writers": true}
+var topKW = map[string]bool{"closed": true, "func": true, "pred": true, "package": true, "axiom": true, "lemma": true, "functype": true, "writers": true}
 
 // Load reads every zz_verif_*.go file in dir.
 func Load(dir, pkg string) (*DB, error) {
@@ -129,8 +131,22 @@ func (db *DB) loadFile(path string) error {
 		rest := strings.TrimSpace(strings.TrimPrefix(it.text, kw))
 		fail := func(err error) error { return fmt.Errorf("%s:%d: %v", path, it.line, err) }
 		switch kw {
+		case "closed":
+			// closed I, J: every value of the interface types I, J of this package has one of the
+			// types of this module that implement it (method calls are resolved by case split)
+			cur = nil
+			for _, n := range strings.Split(rest, ",") {
+				if n = strings.TrimSpace(n); n != "" {
+					db.Closed = append(db.Closed, n)
+				}
+			}
+			db.Assume = append(db.Assume, "closed world: "+rest)
 		case "package":
 			cur = nil
+			// package usedby P Q ...: see sym.(*Exec).usable
+			if fs := strings.Fields(rest); len(fs) > 1 && fs[0] == "usedby" {
+				db.UsedBy = append(db.UsedBy, fs[1:]...)
+			}
 		case "pred":
 			k := strings.Index(rest, ":=")
 			if k < 0 {
